@@ -30,6 +30,9 @@ def gen(rng, tier, i):
     return gen_client_plan(rng, PROFILE)
 
 
+from .. import gen as _gen  # noqa
+gen = _gen.with_lines(gen, ['_write_loop', '_send_packet', 'send', '_receive_packet', '_connect_websocket', '_read_loop_polling'])
+
 def run(plan, sched_values=None, sched_seed=0):
     h = run_client_scenario(plan, sched_values, sched_seed)
     f = coracles.CFacts(h)
